@@ -96,7 +96,15 @@ class Ctx:
     def same_term(self, construct, got, exp, where='', rule=None, what=''):
         if got == exp:
             return self.ok(construct, '', where, rule)
-        ds = T.diff(got, exp, limit=3)
+        ds = T.diff(got, exp, limit=6)
+        # differently ordered if/elif chains: compare the decision trees under every consistent valuation
+        try:
+            if equiv_mod_ite(got, exp):
+                self.notes.setdefault('accepted by decision-tree equivalence', []).append(construct)
+                return self.ok(construct, '', where, rule)
+        except Exception:
+            pass
+        ds = ds[:3]
         parts = []
         for path, a, b in ds:
             parts.append('at %s: code has  %s  ; specification requires  %s' % (path or '/', T.show(a, limit=300), T.show(b, limit=300)))
@@ -511,3 +519,88 @@ def eval_effects(effs, env, funcs=None):
         else:
             raise NoEval('effect ' + k)
     return None
+
+
+# ---------------------------------------------------------------------------
+# decision-tree equivalence: two terms that differ only in how an if/elif chain is ordered
+# ---------------------------------------------------------------------------
+def _ite_atoms(t, acc):
+    for x in T.walk(t):
+        if x[0] == 'ite' and x[1] not in acc:
+            acc.append(x[1])
+
+
+def _resolve(t, val):
+    """Replace every ite whose condition is decided by val; re-normalise."""
+    sub = {c: T.C(v) for c, v in val.items()}
+    return T.substitute(t, sub)
+
+
+def _consistent(val):
+    """Interval reasoning for atoms 'const < X' / 'X < const' over one common term X (integers)."""
+    bounds = {}
+    for c, v in val.items():
+        if c[0] == 'cmp' and c[1] == '<':
+            a, b = c[2], c[3]
+            if T.is_int(a) and not T.is_int(b):       # a < X
+                lo, hi = bounds.get(b, (None, None))
+                if v:
+                    lo = a[1] + 1 if lo is None else max(lo, a[1] + 1)
+                else:                                  # X <= a
+                    hi = a[1] if hi is None else min(hi, a[1])
+                bounds[b] = (lo, hi)
+            elif T.is_int(b) and not T.is_int(a):     # X < b
+                lo, hi = bounds.get(a, (None, None))
+                if v:
+                    hi = b[1] - 1 if hi is None else min(hi, b[1] - 1)
+                else:
+                    lo = b[1] if lo is None else max(lo, b[1])
+                bounds[a] = (lo, hi)
+    return all(lo is None or hi is None or lo <= hi for lo, hi in bounds.values())
+
+
+def ite_equiv(a, b, max_atoms=8):
+    """True if a and b select equal results under every consistent valuation of their (few) ite conditions."""
+    atoms = []
+    _ite_atoms(a, atoms)
+    _ite_atoms(b, atoms)
+    # only atoms that do not themselves contain ites
+    atoms = [c for c in atoms if not any(x[0] == 'ite' for x in T.walk(c))]
+    if not atoms or len(atoms) > max_atoms:
+        return False
+    import itertools
+    for bits in itertools.product((True, False), repeat=len(atoms)):
+        val = dict(zip(atoms, bits))
+        if not _consistent(val):
+            continue
+        ra, rb = _resolve(a, val), _resolve(b, val)
+        if ra != rb:
+            # nested conditions may have become decidable only now: one more round
+            if any(x[0] == 'ite' for x in T.walk(ra)) or any(x[0] == 'ite' for x in T.walk(rb)):
+                if not ite_equiv(ra, rb, max_atoms):
+                    return False
+            else:
+                return False
+    return True
+
+
+def equiv_mod_ite(a, b):
+    """Structural equality, except that sub-terms rooted at a conditional are compared as decision trees."""
+    if a == b:
+        return True
+    if type(a) is not tuple or type(b) is not tuple or not a or not b:
+        return False
+    ta, tb = a[0], b[0]
+    if (type(ta) is str and ta == 'ite') or (type(tb) is str and tb == 'ite'):
+        return ite_equiv(a, b)
+    if ta != tb and (type(ta) is str or type(tb) is str):
+        return False
+    if len(a) != len(b):
+        return False
+    for x, y in zip(a, b):
+        if type(x) is tuple and type(y) is tuple:
+            if not equiv_mod_ite(x, y):
+                return False
+        elif x != y:
+            return False
+    return True
